@@ -90,6 +90,15 @@ func hasParamOfType(sig *types.Signature, ts string) bool {
 	return false
 }
 
+func hasParamNamed(sig *types.Signature, name string) bool {
+	for i := 0; i < sig.Params().Len(); i++ {
+		if sig.Params().At(i).Name() == name {
+			return true
+		}
+	}
+	return false
+}
+
 func bodyCalls(fd *ast.FuncDecl, name string) bool {
 	found := false
 	ast.Inspect(fd.Body, func(n ast.Node) bool {
@@ -211,6 +220,8 @@ func classify(ref *funcRef) string {
 		return "listunmarshal"
 	case strings.HasPrefix(name, "field_") && strings.HasSuffix(name, "_args"):
 		return "fieldargs"
+	case strings.HasPrefix(name, "field_") && strings.Contains(name, "_args") && hasParamNamed(sig, "rawArgs"):
+		return "fieldarg"
 	}
 	return ""
 }
